@@ -135,6 +135,7 @@ REG.contract(
     raises={"TemplateSyntaxError": _bad_key},
     ensures={"payload_filed_under_a_new_id_written_into_the_top_layer": _set_post,
              "accepted_only_for_identifier_keys": lambda c: z3.Not(_bad_key(c))},
+    xensures={"TemplateSyntaxError": {"nothing_changed_when_the_key_is_refused": lambda c: z3.And(D(c) == D(c, True), _cache(c) == _cache(c, True))}},
 )
 
 
@@ -145,3 +146,83 @@ def _lemma_lookup_after_store():
 
 
 ASSUMES = ["A-PY", "A-INST", "A-ID", "A-DJ"]
+
+
+# ================================================================================================ ProvideNode.render
+# {% provide name k=v ... %}body{% endprovide %}: while the body renders the Context has exactly ONE more layer, holding exactly the
+# inject key of `name` bound to the id under which the payload of the given kwargs is filed, and the provider is managed (Active);
+# afterwards - also when the body raises - the Context's layers are as before.
+from pyvc.interp import ExcVal, PyRaise  # noqa: E402
+from pyvc.types import NONE, Conc  # noqa: E402
+
+NODE = Obj("ProvideNode")
+NODELIST = Obj("NodeList")
+REG.stub(("getattr", "ProvideNode", "nodelist"), lambda run, obj, node: Val(NODELIST, ops.uf("provide_node_nodelist", NODE.sort(), NODELIST.sort())(obj.t)))
+
+
+def _nodelist_render(run, obj, args, kwargs, node):
+    """self.nodelist.render(context): the body (template code).  Ghost: layers and cache it sees.  RELY: leaves the Context's layers
+    as found; may raise anything."""
+    from contracts.stubs_django import dicts_of
+    ctx = args[0]
+    run.ghost["layers_in_body"] = Val(LAYERS, dicts_of(run, ctx))
+    run.ghost["cache_in_body"] = run.globals["provide_cache"]
+    run.ghost["managed_in_body"] = run.ghost.get("managed_now", Val(TStr, z3.StringVal("")))
+    if run.choose(2, None) == 1:
+        raise PyRaise(ExcVal("Any", [], site="provide body (template code)"))
+    return Val(TStr, z3.FreshConst(S, "provide_body_output"))
+
+
+REG.stub(("method", "NodeList", "render"), _nodelist_render)
+
+
+def _managed_cm(run, args, kwargs, node):
+    """managed_provide_cache(provide_id) at a call site: its own contract (C05) keeps the provider's data alive while the body runs;
+    here only WHICH id is managed is recorded"""
+    pid = run.coerce(args[0], TStr)
+    run.ghost["managed_now"] = pid
+
+    def enter():
+        return NONE
+
+    def exit_(exc):
+        return False
+    return Conc(("cm", enter, exit_))
+
+
+def _Db(c):
+    return c.ghost["layers_in_body"].t if "layers_in_body" in c.ghost else z3.FreshConst(LAYERS.sort(), "body_never_ran")
+
+
+def _body_sees(c):
+    D0 = z3.Select(c.field(CTX, "dicts", True), c.old("context").t)
+    Db = _Db(c)
+    n = z3.Length(D0)
+    top = Db[n]
+    k = z3.Const("bv_k", S)
+    key = z3.Concat(PREFIX, c.old("name").t)
+    idv = z3.Select(LAYER.val(top), key)
+    cache_b = c.ghost["cache_in_body"].t if "cache_in_body" in c.ghost else z3.FreshConst(CACHE.sort(), "no_cache")
+    managed = c.ghost["managed_in_body"].t if "managed_in_body" in c.ghost else z3.FreshConst(S, "no_managed")
+    return z3.And(
+        z3.Length(Db) == n + 1, z3.Extract(Db, 0, n) == D0,
+        z3.ForAll([k], z3.Select(LAYER.has(top), k) == (k == key)),
+        PV.is_StrV(idv), z3.Select(CACHE.has(cache_b), PV.s(idv)),
+        z3.Select(CACHE.val(cache_b), PV.s(idv)) == payload_of(c.old("kwargs").t),
+        managed == PV.s(idv))
+
+
+def _layers_restored(c):
+    return z3.Select(c.field(CTX, "dicts"), c.old("context").t) == z3.Select(c.field(CTX, "dicts", True), c.old("context").t)
+
+
+REG.contract(
+    f"{MOD}:ProvideNode.render", prop=P, types={"context": Ref(CTX), "name": Str, "kwargs": KW}, result=Str, self_type=NODE,
+    globals={"provide_cache": CACHE}, calls={"managed_provide_cache": _managed_cm},
+    requires=[lambda c: c["context"].t > 0, lambda c: z3.Length(z3.Select(c.field(CTX, "dicts"), c["context"].t)) >= 1],
+    modifies=[f"{CTX}.dicts", "provide_cache"],
+    raises={"TemplateSyntaxError": lambda c: z3.Or(z3.Length(c.old("name").t) == 0, z3.Not(ops.uf("str_isidentifier", S, B)(c.old("name").t))), "Any": None},
+    ensures={"body_sees_one_new_layer_with_exactly_its_inject_key_and_a_managed_filed_payload": _body_sees,
+             "layers_restored": _layers_restored},
+    xensures={"Any": {"layers_restored_on_error": _layers_restored}, "TemplateSyntaxError": {"layers_restored_on_error": _layers_restored}},
+)
